@@ -23,7 +23,7 @@ fn build_invalid(lc: u32, lp: u32, pb: u32, dict: u64, prog: &[Sym]) -> Option<(
     let l = match prog[prog.len() - 1] {
         Sym::M(_, l) | Sym::R(_, l) => l as u64,
         Sym::S | Sym::L(_) => 1,
-        Sym::E => 0,
+        Sym::E | Sym::EL(_) => 0,
     };
     Some((e.payload, e.expect.clone(), e.expect.len() as u64 + l))
 }
@@ -132,6 +132,19 @@ pub fn run(tier: Tier) -> i32 {
                     if !(r.v.is_err() && prefix_out.starts_with(&r.out)) {
                         ctx.violation(&case, &format!("program [{}] (last symbol references outside the window, dict {}): Err, delivered bytes a prefix of {}", prog_str(prog), n, brief_bytes(&prefix_out)), &obs_of(r.v, r.out, r.consumed), None);
                     }
+                    // the same stream on a REUSED decoder that was constructed for (and has decoded) a tiny stream that fits in
+                    // the dictionary, then told the new size by reset(Some(..)): the window rules follow the stream at hand
+                    if i % 4 == 0 {
+                        let tiny = enc::encode(lc, lp, pb, *n as u64, &[Sym::L(0x21)]);
+                        let ops = vec![RawOp::Dec(Hex(tiny.payload.clone())), RawOp::ResetSize(sz), RawOp::Dec(Hex(payload.clone()))];
+                        let case = Case::RawLzma { lc, lp, pb, dict: *n as u32, size: Some(1), memlimit: None, ops };
+                        let o = crate::cases::run_case(&case);
+                        ctx.traces.fetch_add(1, Ordering::Relaxed);
+                        let ok = o.ops.len() == 3 && o.ops[0].v.is_ok() && o.ops[2].v.is_err() && prefix_out.starts_with(&o.out.0);
+                        if !ok {
+                            ctx.violation(&case, &format!("raw decoder constructed with size 1 (fits the {}-byte dictionary), decodes [L21], reset(Some({:?})), then program [{}] whose last symbol references outside the window: Err, delivered bytes a prefix of {}", n, sz, prog_str(prog), brief_bytes(&prefix_out)), &o, None);
+                        }
+                    }
                 }
                 if i % 5003 == 1 {
                     ctx.sample(json!({"scope": name, "dict": n, "program": prog_str(prog), "valid_prefix_output": brief_bytes(&prefix_out)}));
@@ -239,6 +252,57 @@ pub fn run(tier: Tier) -> i32 {
     }
 
     // ---------------------------------------------------------------- E1: LZMA2 (accumulating window, dictionary resets)
+    // ---------------------------------------------------------------- valid copies in the second and third lap of the window that end
+    // exactly at its end (the output must not depend on what the earlier lap left in the cells that follow)
+    {
+        let name = "E1/public+raw/later-lap-copies-ending-at-the-window-end";
+        if ctx.may_start(name) {
+            use super::c01::{build, check_exact, Variant};
+            let t0 = Instant::now();
+            let mut items = Vec::new();
+            for dict in [4096u32, 64, 16] {
+                for lap in 1..=3usize {
+                    for (l, d) in [(16usize, 16u32), (16, 60), (40, 300), (273, 273), (2, 1), (9, 3)] {
+                        if d > dict || (d as usize) < l && l >= 16 && false {
+                            continue;
+                        }
+                        for dj in [0usize, 1] {
+                            items.push((dict, lap, l, d, dj));
+                        }
+                    }
+                }
+            }
+            par_for(items.len() as u64, |i| {
+                let (dict, lap, l, d, dj) = items[i as usize];
+                let target = dict as usize * lap + dict as usize - l - dj; // the copy ends at (dj = 0) / one before the end of lap `lap+1`
+                let mut prog: Vec<Sym> = Vec::new();
+                let mut produced = 0usize;
+                let mut k = 0u32;
+                while produced < target {
+                    let room = target - produced;
+                    if produced >= 8 && room >= 2 && k % 4 != 3 {
+                        let len = room.min(2 + (k as usize * 7) % 60);
+                        prog.push(Sym::M(1 + (k * 5) % (produced.min(dict as usize) as u32).min(7), len as u32));
+                        produced += len;
+                    } else {
+                        prog.push(Sym::L((k * 29 + produced as u32 * 3 + 1) as u8));
+                        produced += 1;
+                    }
+                    k += 1;
+                }
+                prog.push(Sym::M(d, l as u32));
+                prog.extend([Sym::L(0xEE), Sym::M(1, 5), Sym::L(0x78), Sym::M(2, 9), Sym::M(dict.min(15), 12), Sym::L(0x31), Sym::M(dict, 3)]);
+                for var in [Variant::RawKnown { dict }, Variant::RawMarker { dict }] {
+                    if let Some((b, _)) = build(0, 0, 0, &prog, var, dict as u64) {
+                        ctx.eval(1);
+                        ctx.nontriv(1);
+                        check_exact(&ctx, &b, &format!("{} bytes, then M({},{}) ending {} the end of lap {} of a {}-byte window, then short- and long-distance copies {:?}", target, d, l, if dj == 0 { "exactly at" } else { "one byte before" }, lap + 1, dict, var));
+                    }
+                }
+            });
+            ctx.scope_done(name, items.len() as u64, t0, "dictionaries 16 / 64 / 4096, laps 2..4");
+        }
+    }
     // ---------------------------------------------------------------- references under a memory limit below the dictionary size:
     // whatever the limit does, a copy is never served from the wrong place - the outcome is an error or the exact data
     {
